@@ -1,5 +1,6 @@
 mod merkle;
 mod codec;
+mod crypto;
 
 #[global_allocator]
 static GLOBAL: codec::Tracking = codec::Tracking;
@@ -10,6 +11,7 @@ fn main() {
     match cli.domain.as_str() {
         "merkle" => merkle::run(&cli),
         "codec" => codec::run(&cli),
+        "crypto" => crypto::run(&cli),
         d => {
             eprintln!("unknown domain {d}");
             std::process::exit(2);
